@@ -22,7 +22,19 @@ def tool(ctx, name, args, data):
 def gen_lines(rng, n):
     pool = [b"", b"a", b"abc", b"\xc3\xa9t\xc3\xa9", b"\xff", b"a\xc0\xaf", b"\xed\xa0\x80", b"tab\there", b"bell\x07", b"  padded  ", b"\x0bvt",
             b"df6fa1abb58549287111ba8d776733e9 doc", b"x" * 10, b"x" * 11, b"x" * 9, b"dup", b"dup", b" dup ", b"\xf0\x9f\x98\x80", b"nul\x00x"]
-    return [rng.choice(pool) if rng.random() < 0.8 else bytes(rng.choice(b"ab \xc3\xa9\xff") for _ in range(rng.randrange(0, 14))) for _ in range(n)]
+    def one():
+        r = rng.random()
+        if r < 0.6:
+            return rng.choice(pool)
+        if r < 0.75:
+            return bytes(rng.choice(b"ab \xc3\xa9\xff") for _ in range(rng.randrange(0, 14)))
+        if r < 0.85:
+            return b"p" * rng.randrange(0, 9)          # shifts the following lines in the reader's buffer
+        # a mostly-ASCII line with a single stray byte (Latin-1 text in a UTF-8 corpus), at any offset
+        b = bytearray(b"The quick brown fox jumps over the lazy dog"[:rng.randrange(1, 44)])
+        b[rng.randrange(len(b))] = rng.choice([0xE9, 0x80, 0xFF, 0xC3])
+        return bytes(b)
+    return [one() for _ in range(n)]
 
 
 def text(ls):
@@ -44,7 +56,7 @@ def wellformed(b):
 
 def run(ctx):
     rng = ctx.rng
-    nseq = 40 if ctx.tier == "quick" else 400
+    nseq = 60 if ctx.tier == "quick" else 600
     for it in range(nseq):
         ls = gen_lines(rng, rng.randrange(0, 14))
         data = text(ls)
